@@ -239,6 +239,17 @@ func (db *DB) loadSchema(of Object) (s *Schema, err error) {
 			}
 		}
 
+		// fields which cannot be indexed must not be described as indexed
+		// (indexes, even temporary ones, are built out of descriptors)
+		for fn, fd := range s.Fields {
+			if fd.Constraints.Index || fd.Constraints.Unique {
+				if _, ok := fd.castable(); !ok {
+					err = fmt.Errorf("%w: field %s (%s) cannot be indexed", ErrMalformedSchema, fn, fd.Type)
+					return
+				}
+			}
+		}
+
 		// we initialize schema from object
 		if err = s.initialize(db, of); err != nil {
 			return
